@@ -40,8 +40,16 @@ def gen_type(rng, classes, allow_union=True):
     return b, {CLS[b]}
 
 
-def gen_method(rng, name, classes, ret=None):
+def gen_method(rng, name, classes, ret=None, keyword_only=False):
     params, args = [], []
+    if keyword_only:
+        for k in rng.sample(["alpha", "beta", "gamma"], rng.randint(1, 2)):
+            spec, acc = gen_type(rng, classes, allow_union=False)
+            args.append({"type": spec, "key": k + ":"})
+            params.append(Param("key", acc, spec, k))
+        if ret is None:
+            ret = rng.choice(BASE[:6])
+        return {"name": name, "arguments": args, "return_type": {"type": ret}}, params, CLS.get(ret, ret)
     nreq = rng.choice([0, 1, 1, 2, 3])
     for _ in range(nreq):
         spec, acc = gen_type(rng, classes)
@@ -57,7 +65,13 @@ def gen_method(rng, name, classes, ret=None):
         else:
             args.append({"type": spec, "is_default": True})
         params.append(Param("opt", acc, spec))
-    if rng.random() < 0.2:
+    has_opt = any(p.kind == "opt" for p in params)
+    if has_opt and rng.random() < 0.25:
+        # a required positional parameter AFTER the optional ones (Ruby allows `def m(a, b = 1, c)`)
+        spec, acc = gen_type(rng, classes)
+        params.append(Param("req2", acc, spec))
+        args.append({"type": spec})
+    elif rng.random() < 0.2:
         spec, acc = gen_type(rng, classes, allow_union=False)
         if rng.random() < 0.5:
             args.append({"type": "*" + spec})
@@ -113,6 +127,12 @@ class Model:
 def gen_config(rng, n=4, prefix="Kc", overloads=True, shipped_dir=None):
     mdl = shipped_model(shipped_dir) if shipped_dir else Model()
     names = ["%s%d" % (prefix, i) for i in range(n)]
+    # methods several classes declare under ONE name with one signature (union receivers resolve each class's own declaration);
+    # one of them takes keyword parameters only
+    shared = []
+    for k in range(2):
+        sd, sparams, sret = gen_method(rng, "%s_shared%d" % (prefix.lower(), k), names, keyword_only=(k == 0))
+        shared.append((sd, sparams, sret))
     for i, name in enumerate(names):
         parent = [names[rng.randrange(i)]] if i > 0 and rng.random() < 0.4 else []
         ims, cms = [], [{"name": "new", "arguments": [], "return_type": {"type": name}}]
@@ -126,6 +146,10 @@ def gen_config(rng, n=4, prefix="Kc", overloads=True, shipped_dir=None):
                 d2, params2, ret2 = gen_method(rng, mname, names, ret=d["return_type"]["type"])
                 ims.append(d2)
                 info["inst"][mname].append((params2, ret2))
+        for (sd, sparams, sret) in shared:
+            if rng.random() < 0.7:
+                ims.append(sd)
+                info["inst"].setdefault(sd["name"], []).append((sparams, sret))
         for k in range(rng.randint(0, 2)):
             mname = "%s_c%d" % (name.lower(), k)
             d, params, ret = gen_method(rng, mname, names)
@@ -218,6 +242,26 @@ def judge_decl(params, pos, kw, strict_rest=False):
     """pos: list of class sets; kw: dict key -> class set.  'fail' | 'fit' | 'free' against one declaration"""
     req = [p for p in params if p.kind == "req"]
     opt = [p for p in params if p.kind == "opt"]
+    req2 = [p for p in params if p.kind == "req2"]
+    if req2:
+        # required after optional: the count bounds are certain; how a partial list binds is not (Ruby fills the required ones first)
+        n = len(pos)
+        total = len(req) + len(opt) + len(req2)
+        if n < len(req) + len(req2) or n > total:
+            return "fail"
+        if any(p.kind == "key" and p.key not in kw for p in params) or any(k not in [p.key for p in params if p.key] for k in kw):
+            return "fail"
+        if n != total:
+            return "free"
+        res = "fit"
+        keys2 = {p.key: p for p in params if p.kind in ("key", "optkey")}
+        for p, a in list(zip(req + opt + req2, pos)) + [(keys2[k], a) for k, a in kw.items()]:
+            oks = [p.ok(c) for c in a]
+            if not any(oks):
+                return "fail"
+            if not all(oks):
+                res = "free"
+        return res
     rest = [p for p in params if p.kind == "rest"]
     keys = {p.key: p for p in params if p.kind in ("key", "optkey")}
     n = len(pos)
@@ -252,6 +296,12 @@ def judge(mdl, recv_classes, m, pos, kw, kind="inst", strict_rest=False):
     for c in recv_classes:
         ds = mdl.decls(c, m, kind)
         if ds is OPAQUE or (c not in mdl.classes):
+            per.append("free")
+            continue
+        # known finding K33: the keyword parameters of all declarations of one method share a TFrame key per name, so a name that
+        # two overloads declare keeps the type of the declaration loaded last; such calls are not judged
+        keynames = [p.key for ps, _ in ds for p in ps if p.key]
+        if len(ds) > 1 and len(keynames) != len(set(keynames)):
             per.append("free")
             continue
         if not ds:
@@ -307,6 +357,12 @@ class ProgGen:
     def new_var(self):
         rng = self.rng
         name = self.fresh()
+        mk = self.makeable()
+        if len(mk) >= 2 and rng.random() < 0.15:
+            a, b = rng.sample(mk, 2)
+            self.emit("%s = true ? %s.new : %s.new" % (name, a, b))
+            self.vars[name] = frozenset([a, b])
+            return name
         if rng.random() < 0.35:
             (a, ca), (b, cb) = self.value(), self.value()
             self.emit("%s = true ? %s : %s" % (name, a, b))
@@ -363,8 +419,11 @@ class ProgGen:
         if ds:
             params, _ = rng.choice(ds)
             wrong = self.errors and rng.random() < 0.3
+            drop_tail = wrong and rng.random() < 0.35          # stop at the first optional parameter and pass nothing after it, keywords included
+            stopped = False
             for p in params:
-                if p.kind == "opt" and rng.random() < 0.5:
+                if p.kind == "opt" and (drop_tail or rng.random() < 0.5):
+                    stopped = True
                     break
                 if p.kind in ("key", "optkey"):
                     continue
@@ -377,6 +436,8 @@ class ProgGen:
                     pos.append(cs)
                     codes.append(code)
             for p in params:
+                if drop_tail and stopped:
+                    break
                 if p.kind == "key" or (p.kind == "optkey" and rng.random() < 0.5):
                     if wrong and rng.random() < 0.3:
                         continue
